@@ -88,7 +88,7 @@ def classes(W=8, Q0=8):
 
 
 class Interp:
-    def __init__(self, f, buf_arg, len_arg, cls, fixed_args=None, track_stores_to=None):
+    def __init__(self, f, buf_arg, len_arg, cls, fixed_args=None, track_stores_to=None, mode="write", field_consts=None):
         self.f = f
         self.cls = cls
         self.buf_arg, self.len_arg = buf_arg, len_arg
@@ -97,6 +97,8 @@ class Interp:
         self.intervals = []   # (lo LF rel. B, hi LF rel. B, width, inst id, kind)
         self.loads = []
         self.track = track_stores_to
+        self.mode = mode                          # "write": bytes of the buffer written; "read": bytes read
+        self.fields = dict(field_consts or {})    # (arg index, byte offset) -> constant value of that state field in this class
         self.loops = {l["header"]: l for l in f.loops}
         self.trips = {}
         for l in f.loops:
@@ -397,9 +399,25 @@ class Interp:
             return
         if op == "load":
             self.env[k] = None
+            b_, o_ = ir.ptr_base(self.f, o[0])
+            if b_[0] == "a" and (b_[1], o_) in self.fields:
+                self.env[k] = LF.c(self.fields[(b_[1], o_)])
+            if self.mode == "read":
+                ptr = self.val(o[0])
+                if ptr is not None and OBJ in ptr:
+                    lo = self._rel(ptr)
+                    self.intervals.append((lo, lo.add(LF.c(I.get("size"))), I.get("size"), I.id, "load"))
             return
         if op == "store":
-            self.record_store(I, self.val(o[1]), I.get("size"), 1, None)
+            b_, o_ = ir.ptr_base(self.f, o[1])
+            if b_[0] == "a" and (b_[1], o_) in self.fields:
+                v_ = self.val(o[0])
+                if v_ is not None and v_.const() is not None:
+                    self.fields[(b_[1], o_)] = v_.const()
+                else:
+                    del self.fields[(b_[1], o_)]
+            if self.mode == "write":
+                self.record_store(I, self.val(o[1]), I.get("size"), 1, None)
             return
         if op == "call":
             intr = I.get("intrinsic") or ""
@@ -408,13 +426,18 @@ class Interp:
                 lt = self.cmp("ult", a, b)
                 self.env[k] = None if lt is None else ((a if lt else b) if intr.startswith("llvm.umin") else (b if lt else a))
                 return
-            if intr.startswith("llvm.memset") or intr.startswith("llvm.memcpy"):
+            if intr.startswith("llvm.memset") or intr.startswith("llvm.memcpy") or intr.startswith("llvm.memmove"):
                 a = I.call_args()
-                d, n = self.val(a[0]), self.val(a[2])
+                which = a[0] if self.mode == "write" else (a[1] if not intr.startswith("llvm.memset") else None)
+                if which is None:
+                    return
+                d, n = self.val(which), self.val(a[2])
                 if d is not None and OBJ in d:
                     if n is None:
                         raise Broken("D-COV: mem intrinsic on the buffer with unknown length")
                     self.intervals.append((self._rel(d), self._rel(d).add(n), 0, I.id, "mem"))
+                elif d is None and self._derives_from_buf(which):
+                    raise Broken("D-COV: mem intrinsic on the buffer at an address outside the domain (%s)" % I.where)
                 return
             self.env[k] = None
             for a in I.call_args():
@@ -469,7 +492,7 @@ class Interp:
         for b in L["blocks"]:
             for iid in f.blocks[b].insts:
                 I = f.insts[iid]
-                if I.op == "store":
+                if I.op == "store" and self.mode == "write":
                     Pp = f.inst(I.ops[1])
                     sc = Pp.get("scev") if Pp is not None else None
                     base = None
@@ -507,9 +530,43 @@ class Interp:
                     lo = self._rel(S)
                     self.intervals.append((lo, lo.add(execs.scale(w)), w, I.id, "loop"))
                 elif I.op == "call" and not I.is_dbg() and not I.is_lifetime():
+                    intr = I.get("intrinsic") or ""
+                    if intr.startswith(("llvm.memcpy", "llvm.memset", "llvm.memmove")):
+                        a = I.call_args()
+                        which = a[0] if self.mode == "write" else (a[1] if not intr.startswith("llvm.memset") else None)
+                        other = [x for x in a[:2] if x != which]
+                        if which is not None and self._derives_from_buf(which):
+                            Pp = f.inst(which)
+                            sc = Pp.get("scev") if Pp is not None else None
+                            n_ = self.val(a[2])
+                            if not (sc and sc.get("k") == "rec" and sc.get("affine") and sc["loop"] == hdr) or n_ is None or n_.const() is None:
+                                raise Broken("D-COV: mem intrinsic on the buffer inside a loop without affine address / constant length at %s" % I.where)
+                            S, st = self.scev(sc["ops"][0]), self.scev(sc["ops"][1])
+                            if S is None or st is None or st.const() != n_.const() or exiting != hdr or not all(f.dominates_block(I.b, l) for l in L["latches"]):
+                                raise Broken("D-COV: mem intrinsic in loop not contiguous/unconditional at %s" % I.where)
+                            lo = self._rel(S)
+                            self.intervals.append((lo, lo.add(T.scale(n_.const())), n_.const(), I.id, "loop-mem"))
+                        continue
                     for a in I.call_args():
                         if self._derives_from_buf(a):
                             raise Broken("D-COV: call with the buffer inside a loop")
+                elif I.op == "load" and self.mode == "read" and self._derives_from_buf(I.ops[0]):
+                    Pp = f.inst(I.ops[0])
+                    sc = Pp.get("scev") if Pp is not None else None
+                    if not (sc and sc.get("k") == "rec" and sc.get("affine") and sc["loop"] == hdr):
+                        raise Broken("D-COV: load from the buffer inside a loop without affine address at %s" % I.where)
+                    S, st = self.scev(sc["ops"][0]), self.scev(sc["ops"][1])
+                    w = I.get("size")
+                    if S is None or st is None or st.const() is None or exiting != hdr:
+                        raise Broken("D-COV: load recurrence not expressible at %s" % I.where)
+                    if not all(f.dominates_block(I.b, l) for l in L["latches"]):
+                        raise Broken("D-COV: conditional load inside the loop at %s" % I.where)
+                    lo = self._rel(S)
+                    if st.const() == w:
+                        self.intervals.append((lo, lo.add(T.scale(w)), w, I.id, "loop-load"))
+                    else:
+                        # strided single bytes (e.g. byte k of each word): record the hull; exactness is then not claimed
+                        self.intervals.append((lo, lo.add(T.scale(st.const())).add(LF.c(w - st.const())), w, I.id, "loop-load-strided"))
         # exit values of the header phis: start + step * (number of completed iterations)
         for iid in f.blocks[hdr].insts:
             I = f.insts[iid]
@@ -633,7 +690,7 @@ class Interp:
         return False
 
 
-def tiling(intervals, length, interp):
+def tiling(intervals, length, interp, verb="written"):
     """do the intervals tile exactly [0, length)?  returns (True, None) / (False, description) / raises Broken"""
     ivs = [(lo, hi) for (lo, hi, w, iid, kind) in intervals]
     # drop empty intervals
@@ -661,7 +718,7 @@ def tiling(intervals, length, interp):
         if s is None:
             raise Broken("D-COV: adjacency undecided")
         if s > 0:
-            return False, "bytes [%s, %s) are never written" % (cur, lo)
+            return False, "bytes [%s, %s) are never %s" % (cur, lo, verb)
         if s < 0:
             # overlap: allowed (re-writing) but track the furthest end
             pass
@@ -674,27 +731,27 @@ def tiling(intervals, length, interp):
     if s is None:
         raise Broken("D-COV: total extent undecided")
     if s < 0:
-        return False, "bytes [%s, %s) at the end are never written" % (cur, length)
+        return False, "bytes [%s, %s) at the end are never %s" % (cur, length, verb)
     if s > 0:
-        return False, "bytes [%s, %s) beyond the requested length are written" % (length, cur)
+        return False, "bytes [%s, %s) beyond the declared length are %s" % (length, cur, verb)
     for lo, hi in nonempty:
         if interp.sign(lo) == -1:
-            return False, "bytes before the buffer (offset %s) are written" % lo
+            return False, "bytes before the buffer (offset %s) are %s" % (lo, verb)
     return True, None
 
 
-def coverage(f, buf_arg, len_arg, fixed_args=None, W=8, Q0=8):
+def coverage(f, buf_arg, len_arg, fixed_args=None, W=8, Q0=8, mode="write", field_consts=None):
     """analyse all classes; returns (n classes, first failing (class, why) or None, per-class store ids)"""
     bad = None
     n = 0
     used = set()
     for cls in classes(W, Q0):
-        it = Interp(f, buf_arg, len_arg, cls, fixed_args)
+        it = Interp(f, buf_arg, len_arg, cls, fixed_args, mode=mode, field_consts=field_consts)
         it.run()
         n += 1
         for iv in it.intervals:
             used.add(iv[3])
-        ok, why = tiling(it.intervals, cls.length(), it)
+        ok, why = tiling(it.intervals, cls.length(), it, "written" if mode == "write" else "read")
         if not ok and bad is None:
             bad = (cls, why)
     return n, bad, used
